@@ -47,6 +47,9 @@ class LinearMatrix(_AbstractDistribution):
         # Get dimensionality
         self.dimensions = G.shape[1]
 
+        # Keep a reference for forward(); the premultiplied back ends drop their copy
+        self._forward_matrix = G
+
         # Check data vector ------------------------------------------------------------
         if not (type(d) is _numpy.ndarray and d.shape == (d.size, 1)):
             raise ValueError(
@@ -127,7 +130,7 @@ class LinearMatrix(_AbstractDistribution):
         return self.Distribution.generate(repeat, rng=rng)
 
     def forward(self, coordinates: _numpy.ndarray) -> _numpy.ndarray:
-        return self.Distribution.G @ coordinates
+        return self._forward_matrix @ coordinates
 
     @staticmethod
     def create_default(
